@@ -21,6 +21,17 @@ pub unsafe extern "C" fn waitable_join(w: u32, s: u32) {
 pub unsafe extern "C" fn waitable_set_poll(s: u32, out: *mut [u32; 2]) -> u32 {
     let _g = crate::alloc::host_mode();
     crate::driver::snapshot_set(s, "poll");
+    // a violated execution that keeps polling synchronously (`block_on` with
+    // an executor that never stops yielding) can only be ended from here
+    let spinning = host::with(|h| {
+        if h.violated() {
+            h.lenient_waits += 1;
+        }
+        h.lenient_waits > 2000
+    });
+    if spinning {
+        crate::driver::fatal_in_wait("violated");
+    }
     let (e0, e1, e2) = host::with(|h| h.waitable_set_poll(s));
     unsafe { *out = [e1, e2] };
     e0
